@@ -47,7 +47,7 @@ impl Prop for C11 {
         "sizes {0, 1 MiB, 16 MiB, 64 MiB} quick / up to 1 GiB thorough, both modes, both directions, full and short (40000-byte) reads: plaintext comes from a generator source, output goes to a discarding sink; \
          measured with a counting allocator on the calling thread: peak live heap during the call must stay below one fixed constant (1 MiB key mode, 40 MiB password mode = scrypt arena) whatever the size; \
          at every write call: encryption — when the write that starts record i begins at most i+2 read calls have completed; decryption — the source position is at most the end of record i (+1). \
-         the real binary (both modes, both directions, output to a file and to stdout): peak resident memory (measured by /usr/bin/time) for a 96 MiB (thorough 256 MiB) input may exceed that for 8 MiB by at most 16 MiB. non-trivial = distinct (mode, direction, size, read size)".into()
+         the real binary (both modes, both directions, output to a file and to stdout): peak resident memory (measured by /usr/bin/time) for a 96 MiB (thorough 256 MiB) input may exceed that for 8 MiB by at most 16 MiB. the same binary as a pipeline stage (data on standard input, a consumer that reads nothing for 1.5 s): same bound. library: a valid message followed by 1 B .. 32 MiB (thorough 512 MiB) of further input is rejected within the same heap bound. non-trivial = distinct (mode, direction, size, read size)".into()
     }
     fn cases(&self, tier: &str, seed: u64) -> Vec<Case> {
         let th = tier == "thorough";
@@ -59,10 +59,55 @@ impl Prop for C11 {
             v.push(case(&[("mode", mode.into()), ("size", sz.to_string()), ("maxread", (if mr == usize::MAX { 0 } else { mr }).to_string()), ("seed", rng.next().to_string())]));
         } } }
         for dir in ["decrypt", "encrypt"] { for mode in ["key", "pass"] { for out in ["stdout", "file"] { v.push(case(&[("mode", format!("cli-{}", mode)), ("dir", dir.into()), ("out", out.into()), ("size", (if th { 256usize << 20 } else { 96 << 20 }).to_string()), ("seed", rng.next().to_string())])); } } }
+        // the binary in a pipeline whose consumer stalls (input on standard input, output on standard output)
+        for dir in ["encrypt", "decrypt"] { for mode in ["key", "pass"] { if th || (dir == "encrypt") == (mode == "key") { v.push(case(&[("mode", format!("pipe-{}", mode)), ("dir", dir.into()), ("size", (if th { 256usize << 20 } else { 96 << 20 }).to_string()), ("seed", rng.next().to_string())])); } } }
+        // a complete valid message followed by a long tail: rejecting it must not cost memory in proportion to the tail
+        for mode in ["key", "pass"] { for tail in (if th { vec![1usize, 1 << 20, 64 << 20, 512 << 20] } else { vec![1usize, 32 << 20] }) { v.push(case(&[("mode", format!("tail-{}", mode)), ("size", tail.to_string()), ("seed", rng.next().to_string())])); } }
         v
     }
     fn run(&self, c: &Case, _m: &mut Model) -> Outcome {
         let mut o = Outcome::default();
+        if get(c, "mode").starts_with("tail-") {
+            let mut rng = Rng::new(get(c, "seed").parse().unwrap_or(0));
+            let keym = get(c, "mode") == "tail-key"; let tail = getn(c, "size");
+            let (s, r) = (rng.bytes(32), rng.bytes(32)); let (spk, rpk) = (pub_of(&s), pub_of(&r)); let pw = b"streaming".to_vec();
+            let plain = rng.bytes(70000);
+            let file = if keym { crate::imp::key_encrypt(&s, &spk, &rpk, None, None, &plain, &crate::imp::NOSCRIPT).out } else { crate::imp::pass_encrypt(&pw, &rng.bytes(32), &plain, &crate::imp::NOSCRIPT).out };
+            let (pos, reads) = (Rc::new(Cell::new(0usize)), Rc::new(Cell::new(0usize)));
+            let head = SliceSource { data: &file, off: 0, pos: pos.clone(), reads: reads.clone() };
+            let rest = GenSource { left: tail, state: rng.next(), reads: reads.clone(), pos: pos.clone(), maxread: usize::MAX };
+            let mut src = head.chain(rest);
+            let mut sink = CheckSink { written: 0, keep: None, pos: pos.clone(), reads: reads.clone(), worst: None, check: Box::new(|_, _, _| None) };
+            let base = kalloc::alloc::reset();
+            let ok = if keym { decrypt::key_decrypt(&mut src, &mut sink, &crate::imp::sk(&r), &crate::imp::pk(&rpk), AsymFileFormat::V1).is_ok() } else { decrypt::pass_decrypt(&mut src, &mut sink, &pw, PassFileFormat::V1).is_ok() };
+            let peak = kalloc::alloc::peak_since(base);
+            let bound = if keym { 1 << 20 } else { 40 << 20 };
+            o.impl_obs = format!("ok={} peak_heap={} consumed={} of {}", ok, peak, pos.get(), file.len() + tail);
+            o.nontrivial = Some(format!("{}/{}", get(c, "mode"), tail)); o.tags.push(format!("tail {} {}MiB", get(c, "mode"), tail >> 20));
+            if ok { o.oracle_fail = Some(("trailing-data-rejected".into(), format!("a valid message followed by {} more bytes was accepted", tail))); }
+            else if peak > bound { o.oracle_fail = Some(("constant-memory".into(), format!("rejecting a valid {}-byte message followed by {} more bytes used {} bytes of heap at peak (bound {}), {} bytes of input consumed", file.len(), tail, peak, bound, pos.get()))); }
+            return o;
+        }
+        if get(c, "mode").starts_with("pipe-") {
+            use crate::cli::*;
+            let fx = fixtures(); let keym = get(c, "mode") == "pipe-key"; let dec = get(c, "dir") == "decrypt"; let pw = "pass123"; let big = getn(c, "size");
+            let mut rss = vec![];
+            for size in [8usize << 20, big] {
+                let plain: Vec<u8> = (0..size).map(|i| (i as u8).wrapping_mul(31).wrapping_add((i >> 11) as u8)).collect();
+                let input = if !dec { plain } else if keym { crate::imp::key_encrypt(&fx.alice.sk, &fx.alice.pk, &fx.bob.pk, None, None, &plain, &crate::imp::NOSCRIPT).out } else { crate::imp::pass_encrypt(pw.as_bytes(), &[7u8; 32], &plain, &crate::imp::NOSCRIPT).out };
+                let expect_out = if dec { size } else { (if keym { 132 } else { 36 }) + 32 * size.div_ceil(65536).max(1) + size };
+                let world = World { files: vec![("kr.txt".into(), keyring(&[(&fx.alice, true), (&fx.bob, true)]).into_bytes())], env: vec![("KESTREL_PASSWORD".into(), if keym { if dec { fx.bob.pw.into() } else { fx.alice.pw.into() } } else { pw.into() })], stdin: input };
+                let args: Vec<String> = match (keym, dec) { (true, true) => sv(&["decrypt", "-t", "bob", "-k", "kr.txt", "--env-pass"]), (true, false) => sv(&["encrypt", "-t", "bob", "-f", "alice", "-k", "kr.txt", "--env-pass"]),
+                    (false, true) => sv(&["password", "decrypt", "--env-pass"]), (false, false) => sv(&["password", "encrypt", "--env-pass"]) };
+                let (obs, kb, nout) = run_kestrel_stalled_rss(&world, &args, 1500, 180);
+                if !obs.stderr.contains("done") || nout != expect_out { o.oracle_fail = Some(("command-succeeds".into(), format!("{:?} in a pipeline: {} bytes out (expected {}), {}", args, nout, expect_out, obs.stderr.trim()))); return o; }
+                rss.push(kb);
+            }
+            o.impl_obs = format!("stalled consumer: peak RSS {} KiB at 8 MiB, {} KiB at {} MiB", rss[0], rss[1], big >> 20);
+            o.nontrivial = Some(format!("{}/{}", get(c, "mode"), get(c, "dir"))); o.tags.push(format!("pipeline {} {}", get(c, "mode"), get(c, "dir")));
+            if rss[1] > rss[0] + (16 << 10) { o.oracle_fail = Some(("constant-memory".into(), format!("kestrel {} ({}) reading standard input while its consumer stalls for 1.5 s: peak resident memory grows with the input: {} KiB for 8 MiB, {} KiB for {} MiB", get(c, "dir"), get(c, "mode"), rss[0], rss[1], big >> 20))); }
+            return o;
+        }
         if get(c, "mode").starts_with("cli-") {
             // the real binary: peak resident memory must not grow with the input (8 MiB vs the big size), whether output goes to a file or to stdout
             use crate::cli::*;
